@@ -24,3 +24,5 @@ int64_t vpx_strtol(uint8_t *nptr, uint8_t **endptr, uint32_t base) {
   if (ovf) return neg ? (int64_t)((uint64_t)1 << 63) : (int64_t)(((uint64_t)1 << 63) - 1);
   return neg ? (int64_t)((uint64_t)0 - acc) : (int64_t)acc;
 }
+/* LP64: long long has the range of long */
+int64_t vpx_strtoll(uint8_t *nptr, uint8_t **endptr, uint32_t base) { return vpx_strtol(nptr, endptr, base); }
